@@ -18,6 +18,7 @@
  *   screen <sid> list <firstViewOnly> <si> <pwhex>...   rfbCheckPasswordByList
  *   screen <sid> file <si> <filehex|missing>     rfbDefaultPasswordCheck, raw password-file content
  *   mode fixed|unfixed                           (model only)
+ *   cryptofail <0|1>                             fault injection: gcry_cipher_open fails from now on
  *   rand <32 hex>                                next challenge(s)
  *   conn <cid> <sid> <rev> <prehex|->            new connection; pre = bytes already sent by the peer
  *   send <cid> <hex> | sendnp <cid> <hex> | proc <cid> | close <cid> | state
@@ -28,6 +29,8 @@
 #include <openssl/des.h>
 #include <signal.h>
 #include "crypto.h"
+#include <dlfcn.h>
+#include <gcrypt.h>
 
 #define MAXS 8
 #define MAXC 64
@@ -45,6 +48,15 @@ static unsigned char randbuf[16];
 static unsigned randpos;
 long random(void) { return (long)randbuf[randpos++ % 16] + 256L * 5; }
 void srandom(unsigned s) { (void)s; }
+
+/* ---- fault injection: the crypto back-end cannot provide a cipher (e.g. DES disabled in FIPS mode) */
+static int cryptofail;
+gcry_error_t gcry_cipher_open(gcry_cipher_hd_t *hd, int algo, int mode, unsigned int flags) {
+  static gcry_error_t (*real)(gcry_cipher_hd_t *, int, int, unsigned int);
+  if (!real) real = (gcry_error_t (*)(gcry_cipher_hd_t *, int, int, unsigned int))dlsym(RTLD_NEXT, "gcry_cipher_open");
+  if (cryptofail) { *hd = NULL; return gcry_error(GPG_ERR_CIPHER_ALGO); }
+  return real(hd, algo, mode, flags);
+}
 
 static const char *stname(int st) {
   switch (st) {
@@ -159,6 +171,10 @@ int main(void) {
       puts("ok");
     } else if (!strcmp(tok[0], "mode") && n == 2) {
       puts((!strcmp(tok[1], "fixed") || !strcmp(tok[1], "unfixed")) ? "ok" : "bad-op");  /* model only */
+    } else if (!strcmp(tok[0], "cryptofail") && n == 2) {
+      if (strcmp(tok[1], "0") && strcmp(tok[1], "1")) { puts("bad-op"); goto next; }
+      cryptofail = tok[1][0] == '1';
+      puts("ok");
     } else if (!strcmp(tok[0], "rand") && n == 2) {
       if (vh_unhex(tok[1], buf, sizeof buf) != 16) { puts("bad-op"); goto next; }
       memcpy(randbuf, buf, 16); randpos = 0;
